@@ -319,7 +319,7 @@ def check_filter_posterior(k1: int, k2: int, n_samples: int, n_out: int,
     meas = np.arange(2 * n_out * n_times, dtype=float).reshape(
         2, n_out, n_times) + 1.0
     filt = chi.GaussianFilter(meas)
-    times = [2.0, 1.0][:n_times]
+    times = [2.0, 1.0, 3.5][:n_times]
     pop.set_n_ids(n_samples)
     n_top = pop.n_parameters() + (0 if sigma_fixed else n_out)
     prior = pints.ComposedLogPrior(*[pints.UniformLogPrior(0, 5)] * n_top)
